@@ -99,7 +99,7 @@ def main(tier, seed, replay=None):
             mismatch = tracking_correspondence(claripy, solverhist, drv, random.Random(seed + 11), stats, 150 if tier == "quick" else 2500)
         except Exception as ex:  # noqa
             mismatch = {"exception": repr(ex)}
-        iters = 260 if tier == "quick" else 12000
+        iters = 500 if tier == "quick" else 12000
         for it in range(iters):
             if fail:
                 break
